@@ -60,7 +60,7 @@ func main() {
 		"iso:api-ok:browser", "iso:api-ok:verify", "iso:api-ok:introspect", "iso:api-ok:exchange", "iso:api-ok:token",
 		"iso:device-poll-success", "iso:redirect-probe-ok:discovery", "iso:redirect-probe-ok:token", "iso:redirect-probe-ok:userinfo",
 		"extra:pair-judged", "extra:findkey-pair-judged", "extra:keyset-token-judged", "extra:keyset-cancel-round-judged", "extra:shared-verifier-step-judged",
-		"conc:round-with-yield-jitter", "iso:interceptor-list-shared-by-two-providers", "preempt:pair-judged:static", "preempt:flow-step-parked:static", "preempt:pair-judged:host-derived", "preempt:flow-step-parked:host-derived",
+		"conc:round-with-yield-jitter", "iso:interceptor-list-shared-by-two-providers", "iso:forwarded-issuer-judged:fwddefault", "iso:forwarded-issuer-judged:fwdissuer", "preempt:pair-judged:static", "preempt:flow-step-parked:static", "preempt:pair-judged:host-derived", "preempt:flow-step-parked:host-derived",
 		"wire:pair-judged", "wire:pair-judged-after-encode-failure", "wire:failed-before-the-wire:encode", "wire:failed-before-the-wire:new-request", "wire:failed-before-the-wire:context",
 	)
 	run.Mandatory(mandatoryNames...)
